@@ -581,6 +581,128 @@ def control_draws(i, flt, j, tree):
     return draws, out_ev
 
 
+def frees_last(lg):
+    """allocations in order, then the frees as a sorted set (RRTConnect frees xstate / rstate BEFORE it clones an approximate
+    path, the generic epilogue of the model after it: compare the allocation order and WHICH states a solve frees)"""
+    if lg == "-":
+        return lg
+    ev = lg.split(",")
+    return ",".join([e for e in ev if e[0] == "A"] + sorted([e for e in ev if e[0] != "A"], key=lambda e: (int(e[1:]) if e[1:].isdigit() else -1)))
+
+
+def connect_draws(i, flt, j, bi, goal_bits):
+    """geometric::RRTConnect: per iteration (after each P0) read the goal root handed out by nextGoal (allocations before the
+    first growTree call; the first ever is PlannerInputStates::tempState_), the growTree calls (m<s1>:<s2>:<bits s1> M<s1>:<valid>:<bits s2>
+    [A<new motion>]; start side: s1 is a start-tree motion and s2 the scratch state, goal side the other way round; REACHED iff
+    the scratch state is rstate), and the goal distance of tgi.xmotion (G event).  growTree calls that return TRAPPED without a
+    checkMotion (isValid(dstate) false on the goal side) leave no event: an iteration without events, or a connect sequence that
+    ends ADVANCED, is completed with T.  Returns (draw strings, events with tempState_ removed)."""
+    out_ev = [e for e in flt[:j] if e[0] in "AF"]
+    draws = []
+    n = len(flt)
+    xs, rs = bi["x"], bi["r"]
+    while j < n:
+        if flt[j] == "P1":
+            j += 1
+            continue
+        if flt[j] != "P0":
+            # epilogue (after the last P, or after the connection `break`): path clones and the frees of xstate / rstate
+            out_ev += [e for e in flt[j:] if e[0] in "AF"]
+            break
+        k = j + 1
+        while k < n and flt[k][0] != "P":
+            k += 1
+        it = flt[j + 1:k]
+        start_side = bi["turn"]
+        bi["turn"] = not bi["turn"]
+        a = 0
+        lead = []
+        while a < len(it) and it[a][0] == "A":
+            lead.append(it[a][1:])
+            a += 1
+        has_growth = any(e[0] == "m" for e in it)
+        goal = "0"
+        if not has_growth and lead:
+            # no growTree call left a trace.  Allocations here are tempState_ / a goal root (first iteration) or, after the
+            # loop was left, nothing: a leading A run followed by F events is the epilogue
+            if any(e[0] == "F" for e in it):
+                out_ev += [e for e in it if e[0] in "AF"]
+                bi["turn"] = start_side
+                j = k
+                continue
+        if lead:
+            if len(lead) == 2 and bi["temp"] is None:
+                bi["temp"] = lead[0]
+                lead = lead[1:]
+            if len(lead) != 1:
+                raise ValueError("op %d: %d allocations before growTree" % (i, len(lead)))
+            bi["tg"].append(lead[0])
+            out_ev.append("A" + lead[0])
+            goal = "1 %d %s" % (len(goal_bits), " ".join(goal_bits))
+        recs = []
+        b = a
+        xser = None
+        gdist = "0"
+        while b < len(it):
+            e = it[b]
+            if e[0] == "m":
+                f = e[1:].split(":")
+                if b + 1 >= len(it) or it[b + 1][0] != "M":
+                    raise ValueError("op %d: m event without M" % i)
+                mm = it[b + 1][1:].split(":")
+                s1, s2 = f[0], f[1]
+                if s2 in (xs, rs):          # start side: checkMotion(nmotion->state, dstate)
+                    side, near_ser, tmp, st = True, s1, s2, mm[2:]
+                elif s1 in (xs, rs):        # goal side: checkMotion(dstate, nmotion->state)
+                    side, near_ser, tmp, st = False, s2, s1, f[2:]
+                else:
+                    raise ValueError("op %d: checkMotion between two non-scratch states" % i)
+                tree = bi["ts"] if side else bi["tg"]
+                if near_ser not in tree:
+                    raise ValueError("op %d: growTree from a motion that is not in the %s tree" % (i, "start" if side else "goal"))
+                near = tree.index(near_ser)
+                valid = mm[1] == "1"
+                b += 2
+                if valid:
+                    if b >= len(it) or it[b][0] != "A":
+                        raise ValueError("op %d: valid motion not followed by the new motion's allocation" % i)
+                    tree.append(it[b][1:])
+                    out_ev.append(it[b])
+                    b += 1
+                recs.append((side, near, valid, tmp == rs, st))
+                continue
+            if e[0] == "G":
+                gdist = e[1:].split(":")[2]
+            elif e[0] in "AF":
+                out_ev.append(e)       # path clones of the connection (the loop is left right after)
+            b += 1
+        if not recs:
+            first, conn = "T", []
+        else:
+            if recs[0][0] != start_side:
+                raise ValueError("op %d: iteration extends the %s tree first, startTree_ says the other" % (i, "start" if recs[0][0] else "goal"))
+            side, near, valid, reach, st = recs[0]
+            if not valid:
+                if len(recs) > 1:
+                    raise ValueError("op %d: growTree calls after a TRAPPED first one" % i)
+                first, conn = "T", []
+            else:
+                first = "A %d %d %d %s" % (near, 1 if reach else 0, len(st), " ".join(st))
+                conn = []
+                for (sd, nr, vl, rc, s_) in recs[1:]:
+                    if sd == start_side:
+                        raise ValueError("op %d: connect call on the tree that was just extended" % i)
+                    conn.append("A %d %d %d %s" % (nr, 1 if rc else 0, len(s_), " ".join(s_)) if vl else "T")
+                if not conn or (recs[-1][2] and not recs[-1][3] and len(recs) > 1):
+                    conn.append("T")            # a silent TRAPPED (isValid(dstate) false / no progress)
+                CONNECT_KINDS["connect-calls:%d" % min(len(conn), 6)] = CONNECT_KINDS.get("connect-calls:%d" % min(len(conn), 6), 0) + 1
+                if recs[-1][2] and recs[-1][3] and len(recs) > 1:
+                    CONNECT_KINDS["trees-connected"] = CONNECT_KINDS.get("trees-connected", 0) + 1
+        draws.append("%s %s %d %s 1 %s" % (goal, first, len(conn), " ".join(conn), gdist))
+        j = k
+    return draws, out_ev
+
+
 def translate_trace(ops, out, core="rrt", info=None):
     """harness trace of geometric::RRT -> model script lines + the harness's own canonical lines.
     Returns (model_ops, impl_canon) or raises ValueError when the trace does not have the shape the model expects
@@ -797,6 +919,7 @@ def canon_model(lines):
 
 LOCK_CRASHES = {}
 INTERM_KINDS = {}
+CONNECT_KINDS = {}
 # RRT: the goal test (GoalRegion::isSatisfied over GoalState::distanceGoal) is computed by the model ("rrtg"); RRTi: the
 # intermediate-states core (getMotionStates / validSegmentCount / interpolate in the model; the header gets the space's
 # longestValidSegment_ from the harness's setpd line)
